@@ -1,4 +1,5 @@
 import RreModel.C05.Lemmas2
+import RreModel.C05.Theorems
 /-
 C05 — property theorems, second part (follow-up): the text layer of the GRL parser (`strip_comments`,
 `mask_string_literals` after fix-C05j, `unmask`), the accumulate kernels, `extract_module_from_context`, the
@@ -222,5 +223,70 @@ theorem parseDurationOld_counterexample : ¬ parseDurationOld_no_panic_full := b
   have hp : (parseDurationOld nomRef "18446744073709551615 min".toList).isPanic = true := by decide
   have := h "18446744073709551615 min".toList
   cases hx : parseDurationOld nomRef "18446744073709551615 min".toList <;> simp_all [PR.isPanic]
+
+/-! ### the `SetWorkflowData("key=value")` branch: the text that is unmasked twice -/
+
+/-- the split of the unmasked argument at its first `=` never panics: `=` is ASCII, so both `eq` and `eq + 1` are char
+boundaries, whatever the literal body contains (multi-byte text, forged placeholders, no `=` at all) -/
+theorem wfDataSplit_no_panic (k : Cls) (lits : List Str) (args : Str) :
+    wfDataSplit k lits args ≠ .panic ∧ wfDataSplit k lits args ≠ .oof := by
+  unfold wfDataSplit
+  obtain ⟨data, hd⟩ := unmask_total lits (trim k args)
+  rw [hd]
+  simp only [bindR]
+  cases h' : findChar data '=' with
+  | none => simp
+  | some p =>
+    obtain ⟨pre, q, hs, hp⟩ := findChar_spec h'
+    have e1 : sliceTo data p = some pre := by rw [hs, hp]; exact sliceTo_append _ _
+    have e2 : sliceFrom data (p + 1) = some q := by
+      have := sliceFrom_append (pre ++ ['=']) q
+      rw [hs, hp]
+      have hu : '='.utf8Size = 1 := rfl
+      simpa [blen_append, hu] using this
+    simp [e1, e2]
+
+/-- **the whole branch never panics — for every table and every argument text**, in particular when the literal body carries
+`MASK_START <digits> MASK_END` with an index at or beyond the number of literals (the second `unmask` is total because the
+table is read with `get`, `unmask_no_panic`) -/
+theorem wfData_no_panic (k : Cls) (lits : List Str) (args : Str) :
+    wfData k lits args ≠ .panic ∧ wfData k lits args ≠ .oof := by
+  unfold wfData
+  have h1 := wfDataSplit_no_panic k lits args
+  cases hs : wfDataSplit k lits args with
+  | panic => exact absurd hs h1.1
+  | oof => exact absurd hs h1.2
+  | err => simp [bindR]
+  | ok kv =>
+    simp only [bindR]
+    have h2 := parseValue_no_panic k kv.2
+    have h3 := parseValue_total k kv.2
+    cases hv : parseValue k kv.2 with
+    | panic => exact absurd hv h2
+    | oof => exact absurd hv h3
+    | err => simp
+    | ok v =>
+      simp only []
+      cases v with
+      | str x => obtain ⟨y, hy⟩ := unmask_total lits x; simp [unmaskLeaf, hy, bindR]
+      | expr x => obtain ⟨y, hy⟩ := unmask_total lits x; simp [unmaskLeaf, hy, bindR]
+      | int i => simp [unmaskLeaf]
+      | num => simp [unmaskLeaf]
+      | bool b => simp [unmaskLeaf]
+      | null => simp [unmaskLeaf]
+      | arr vs => simp [unmaskLeaf]
+
+/-- a forged placeholder survives the first unmask as ordinary text and is looked up by the second one: the index 7 is
+beyond the table, the text stays as written (and `"stage=` + placeholder 1 is replaced by the body of literal 1 only once) -/
+example : wfStr (wfData ⟨fun c => c == ' ', fun _ => false, fun _ => false⟩ ["r".toList, "stage=\u00017\u0002".toList]
+    "\"\u00011\u0002\"".toList) = some ("stage".toList, "\u00017\u0002\"".toList) := by decide +kernel
+
+/-- indexing the table directly is NOT safe on this path: `SetWorkflowData("stage=<MASK_START>7<MASK_END>")` in a text with
+two literals — the first unmask is fine (the masker wrote index 1), the second reads index 7 of a table of length 2 -/
+theorem wfDataDirect_counterexample :
+    unmaskDirect ["r".toList, "stage=\u00017\u0002".toList] "\"\u00011\u0002\"".toList
+        = .ok "\"stage=\u00017\u0002\"".toList
+    ∧ wfValueDirect ["r".toList, "stage=\u00017\u0002".toList] "\"\u00011\u0002\"".toList = .panic := by
+  decide +kernel
 
 end C05
